@@ -202,13 +202,16 @@ Arguments mkRound {I S E} _ _ _ _ _.
 Definition step_retry (g : graph) (done : list N) (n : N) : list N * @verdict N :=
   if ready g done n then (n :: done, VDone) else (done, VStay n).
 
-(* replaying a recorded run of the real loop: the state is the list of outcomes still to be consumed
-   (0 = success, 1 = re-queued, 2 = dropped); an exhausted record reads as re-queued *)
-Definition step_replay (s : list N) (i : N) : list N * @verdict N :=
-  match s with
-  | [] => ([], VStay i)
-  | o :: s' => (s', if o =? 0 then VDone else if o =? 1 then VStay i else VDrop i)
-  end.
+(* replaying a recorded run of the real loop (correspondence): perm = items the loop rejects without attempting them
+   (a Reference component, an unparsable name); the state is the list of recorded outcomes still to be consumed
+   (0 = success, 1 = failure re-queued, 2 = permanent failure) and the number of attempts made so far, which also names the
+   error object of that attempt.  An exhausted record reads as a failure. *)
+Definition step_replay (perm : list N) (s : list N * N) (i : N) : (list N * N) * @verdict N :=
+  if memN i perm then (s, VDrop (1000000 + i))
+  else match fst s with
+       | [] => (s, VStay (snd s))
+       | o :: rest => ((rest, N.succ (snd s)), if o =? 0 then VDone else if o =? 1 then VStay (snd s) else VDrop (snd s))
+       end.
 
 (* ------------------------------------------------------------------ 4. request-body $ref chains (bodies._resolve_reference) *)
 Inductive rbody := RRef (r : str) | RBody (id : N).
